@@ -334,6 +334,25 @@ Theorem c09_summary_written_is_cut_read : forall (K : consts) (snap : list ev) (
 Proof. exact run_cut_writes_inputs. Qed.
 Print Assumptions c09_summary_written_is_cut_read.
 
+(* … for the whole job of a completed compaction_auto_v1 call: with the stream right after job_spawned as the job's
+   snapshot, the result lists, in the ascending to_seq order of the plan, one created checkpoint per planned cut whose
+   summary is readable at the end and equals `cut_read` of that cut on (snapshot, the stream at that moment — `curs`
+   lists those streams; the first is the snapshot itself) (`fed_at`) … *)
+Theorem c09_auto_summaries_fed : forall (K : consts) (ostride omax : option N) (odry : option bool) (s s' : st) (r : auto_resp),
+  auto K ostride omax odry s = (s', Ok r) -> ar_status r = 2 ->
+  exists j curs,
+    ar_job r = Some j
+    /\ fed_at K (log (append s (BJobSpawned j (ar_planned r) (ar_stride r)))) s' curs (plan_sort (ar_planned r)) (ar_result r)
+    /\ length curs = length (plan_sort (ar_planned r))
+    /\ match curs with [] => True | cur :: _ => cur = log (append s (BJobSpawned j (ar_planned r) (ar_stride r))) end.
+Proof. exact auto_summaries_fed. Qed.
+Print Assumptions c09_auto_summaries_fed.
+
+Example c09_demo_auto_completed :
+  exists r, auto real_consts (Some 2) (Some 2) None demo7 = (demo7_after, Ok r) /\ ar_status r = 2
+            /\ map cr_seq (ar_result r) = [5; 7].
+Proof. exact demo7_auto_completed. Qed.
+
 (* … the base is the latest checkpoint frame strictly below the cut — largest to_seq < cut, then latest in the stream
    (`latest_below`) — of the current stream when the bounded sidecar scan answers and finds one, of the job's snapshot
    otherwise (`base_spec`); base_to_seq is that frame's to_seq (0 without a base) … *)
